@@ -291,7 +291,7 @@ def assert_contract(op):
     ok = False
     if name == 'set_sprite':
         ok = (_isint(a[0], 0, 255) and _isint(a[2], 0, 1 << 20) and _isint(a[3], 0, 1 << 20) and
-              all(_isint(v, 0, 16) for r in a[1] for v in r) and a[4] in ('list', 'bytearray', 'tuple'))
+              all(_isint(v, 0, 16) for r in a[1] for v in r) and a[4] in WRAPS)
     elif name == 'get_sprite':
         ok = _isint(a[0], 0, 255) and _isint(a[1], 1, 1 << 10) and _isint(a[2], 1, 1 << 10)
     elif name == 'set_cell':
@@ -300,7 +300,7 @@ def assert_contract(op):
         ok = _isint(a[0], 0, 127) and _isint(a[1], 0, 63)
     elif name == 'set_rect_tiles':
         ok = (all(_isint(v, 0, 255) for r in a[0] for v in r) and _isint(a[1], 0, 127) and
-              _isint(a[2], 0, 63) and a[3] in ('list', 'bytearray', 'tuple'))
+              _isint(a[2], 0, 63) and a[3] in WRAPS)
     elif name in ('get_rect_tiles', 'get_rect_pixels'):
         ok = (_isint(a[0], 0, 127) and _isint(a[1], 0, 63) and _isint(a[2], 1, 1 << 10) and
               _isint(a[3], 1, 64) and a[1] + a[3] <= 64)
@@ -335,6 +335,13 @@ def _wrap_rows(rows, wrap):
         return [bytearray(r) for r in rows]
     if wrap == 'tuple':
         return tuple(tuple(r) for r in rows)
+    # the documented type is "an iterable of iterables": one-shot iterables are in contract
+    if wrap == 'generator':
+        return (list(r) for r in rows)
+    if wrap == 'iterators':
+        return [iter(list(r)) for r in rows]
+    if wrap == 'reversed':
+        return reversed([reversed(list(reversed(r))) for r in reversed(list(rows))])
     return [list(r) for r in rows]
 
 
@@ -597,7 +604,7 @@ def record_history(stats, seed, ops, labsets, sample_extra=None, kind='enumerate
 
 CROSS_PX = (0, 1, 2, 3, 5, 8, 20)
 CROSS_CELLS = (0, 1, 2, 5, 40, 70)
-WRAPS = ('list', 'bytearray', 'tuple')
+WRAPS = ('list', 'bytearray', 'tuple', 'generator', 'iterators', 'reversed')
 
 
 def _offset(ch):
@@ -869,7 +876,7 @@ def sprite_edge_histories(group, dseed):
                     if row == 15:
                         yo = min(yo, 8 - h)  # this group stays above the bottom edge
                     rows = _pixels(dseed, ('r', row, xo, beyond), w, h)
-                    yield [['set_sprite', row * 16 + 15, rows, xo, yo, WRAPS[(xo + beyond) % 3]],
+                    yield [['set_sprite', row * 16 + 15, rows, xo, yo, WRAPS[(xo + beyond) % 6]],
                            _shared_read_for_sprite(row * 8 + yo)]
     elif group == 1:
         for col in range(16):
@@ -882,7 +889,7 @@ def sprite_edge_histories(group, dseed):
                     if col == 15:
                         xo = min(xo, 8 - w)  # this group stays left of the right edge
                     rows = _pixels(dseed, ('b', col, yo, beyond), w, h)
-                    yield [['set_sprite', 240 + col, rows, xo, yo, WRAPS[(yo + beyond) % 3]],
+                    yield [['set_sprite', 240 + col, rows, xo, yo, WRAPS[(yo + beyond) % 6]],
                            _shared_read_for_sprite(y0)]
     else:
         for xo in (0, 3, 7, 8, 9):
@@ -892,7 +899,7 @@ def sprite_edge_histories(group, dseed):
                         w = max(1, 8 - xo + bx)
                         h = max(1, 8 - yo + by)
                         rows = _pixels(dseed, ('c', xo, yo, bx, by), w, h)
-                        yield [['set_sprite', 255, rows, xo, yo, WRAPS[(bx + by) % 3]],
+                        yield [['set_sprite', 255, rows, xo, yo, WRAPS[(bx + by) % 6]],
                                _shared_read_for_sprite(120 + yo)]
 
 
@@ -908,7 +915,7 @@ def map_edge_histories(group, dseed):
                         rows = [list(fill[j * w:(j + 1) * w]) for j in range(h)]
                         if w == 3 and h == 3:
                             rows[1] = rows[1][:1]  # ragged
-                        yield [['set_rect_tiles', rows, x, y, WRAPS[(w + h) % 3]],
+                        yield [['set_rect_tiles', rows, x, y, WRAPS[(w + h) % 6]],
                                ['get_rect_tiles', 120, max(0, min(y, 60) - 1), 10, 4]]
     elif group == 1:
         for x in xs:
